@@ -12,6 +12,10 @@
 //!   finish
 //!   zenc b|c <n>  / zdec b|c <n>    one call on a piece of `n` zero bytes, `n` up to > 2^32
 //!                                   (right after `params`; ends the run; see `zeros.rs`)
+//! A decoder run continues after `dec` reported an error: `Decoder::decode` leaves the object
+//! usable (in `InitialState`, over the same iovec), so later `dec` / drain / `finish` ops act on
+//! it; the oracle then judges the input fed since the last error against the output produced
+//! since then ("after an error the decoder behaves like a fresh decoder").
 //! After executing `enc`/`dec`/a drain the executor prints, besides the `O`
 //! line, the line `I seen <bytes drained> <bytes in stable_prefix()>`: slice
 //! boundaries are structural, so the abstract model cannot predict these two
@@ -76,6 +80,8 @@ fn oracle_rng(bytes: &[u8], salt: u64) -> Rng {
 }
 
 const METHODS: [&str; 4] = ["b", "c", "a", "r"];
+/// encoder only: S / T = `ZeroCopySink::append_borrow` / `append_copy` through `dyn ZeroCopySink`
+const ENC_METHODS: [&str; 6] = ["b", "c", "a", "r", "S", "T"];
 
 /// Real decoder on `wire`: one `decode` call (`plan = None`) or a random
 /// segmentation with mixed methods and interleaved drains.
@@ -261,6 +267,19 @@ impl Exec for EncExec {
     fn step(&mut self, w: &[&str]) -> StepOut {
         match w {
             ["seen", ..] => StepOut::default(),
+            // the public `hcobs::find_stuff_sequence`, called directly (track apigaps)
+            ["find", hex] => {
+                let Some(bytes) = from_hex(hex) else { return StepOut::bad() };
+                let got = hcobs::find_stuff_sequence(&bytes);
+                let mut so = StepOut::obs(format!("find={}", got.map(|i| i.to_string()).unwrap_or("none".into())));
+                let want = (0..bytes.len().saturating_sub(1)).find(|i| bytes[*i] == 0xFE && bytes[*i + 1] == 0xFD);
+                if got != want {
+                    so.violations.push(format!("C02 find_stuff_sequence returned {:?}, the first FE FD is at {:?}", got, want));
+                    so.violations.push(format!("C07 find_stuff_sequence returned {:?}, the first FE FD is at {:?}", got, want));
+                }
+                so.tags.push(if got.is_some() { "find_some".into() } else { "find_none".into() });
+                so
+            }
             ["params", rest @ ..] => {
                 self.run = None;
                 self.bufs.clear();
@@ -273,7 +292,7 @@ impl Exec for EncExec {
             }
             ["enc", m, hex] => {
                 let Some(bytes) = from_hex(hex) else { return StepOut::bad() };
-                if !METHODS.contains(m) {
+                if !ENC_METHODS.contains(m) {
                     return StepOut::bad();
                 }
                 let Some(run) = self.run.as_mut() else { return StepOut::bad() };
@@ -399,9 +418,16 @@ impl Family for HcobsEncFamily {
 struct DecRun {
     dec: RealDec,
     l: Limits,
+    /// bytes fed since `params` or since the last call that returned `Err`
     input: Vec<u8>,
     drained: Vec<u8>,
     snaps: Vec<Snap>,
+    /// number of output bytes (drained + exposed) when the last failed call returned
+    base: usize,
+    /// calls that returned `Err` so far
+    errors: usize,
+    /// any `dec` op so far (for `zdec`)
+    fed: bool,
 }
 
 #[derive(Default)]
@@ -410,8 +436,21 @@ pub struct DecExec {
     bufs: BufStore,
 }
 
-/// C07 on one decoder run that ended with `verdict` (`Some(all output bytes)` = accepted).
-fn oracle_dec(l: Limits, input: &[u8], verdict: Option<&[u8]>, snaps: &[Snap], produced: &[u8]) -> Vec<String> {
+/// C07 on one decoder message (the input fed since `params` / since the last failed call) that
+/// ended with `verdict` (`Some(the output bytes of this message)` = accepted).  `produced` =
+/// everything the decoder object has output so far.  `after_errors` > 0: the object had returned
+/// `Err` before this message, and must nevertheless behave like a fresh decoder.
+fn oracle_dec(l: Limits, input: &[u8], verdict: Option<&[u8]>, snaps: &[Snap], produced: &[u8], after_errors: usize) -> Vec<String> {
+    let mut v = oracle_dec_inner(l, input, verdict, snaps, produced);
+    if after_errors > 0 {
+        for m in v.iter_mut() {
+            m.push_str(&format!(" (decoder reused after {} failed call(s))", after_errors));
+        }
+    }
+    v
+}
+
+fn oracle_dec_inner(l: Limits, input: &[u8], verdict: Option<&[u8]>, snaps: &[Snap], produced: &[u8]) -> Vec<String> {
     let mut v = Vec::new();
     let reference = ref_decode(l, input);
     match (verdict, &reference) {
@@ -446,7 +485,7 @@ impl Exec for DecExec {
                 self.bufs.clear();
                 let Some(l) = Limits::parse(rest) else { return StepOut::bad() };
                 let Some(dec) = RealDec::new(l) else { return StepOut::bad() };
-                self.run = Some(DecRun { dec, l, input: vec![], drained: vec![], snaps: vec![] });
+                self.run = Some(DecRun { dec, l, input: vec![], drained: vec![], snaps: vec![], base: 0, errors: 0, fed: false });
                 let mut so = StepOut::obs("params ok");
                 so.tags.push(if l.prod { "dec_params_prod".into() } else { "dec_params_custom".into() });
                 so
@@ -458,9 +497,13 @@ impl Exec for DecExec {
                 }
                 let Some(run) = self.run.as_mut() else { return StepOut::bad() };
                 run.input.extend_from_slice(&bytes);
+                run.fed = true;
                 let data = self.bufs.keep(bytes);
                 let mut so = StepOut::default();
                 so.tags.push(format!("dec_method_{}", m));
+                if run.errors > 0 {
+                    so.tags.push("dec_call_after_error".into());
+                }
                 let res = catch_unwind(AssertUnwindSafe(|| run.dec.feed(m, data)));
                 match res {
                     Err(_) => {
@@ -488,9 +531,19 @@ impl Exec for DecExec {
                         so.tags.push(format!("dec_err_{}", fmt_dec_err(&e).split(' ').next().unwrap()));
                         let mut produced = run.drained.clone();
                         produced.extend_from_slice(&stable_bytes(&run.dec.consumer()));
-                        so.violations = oracle_dec(run.l, &run.input, None, &run.snaps, &produced);
-                        self.run = None;
-                        self.bufs.clear();
+                        if s.rstable != s.size || s.pending {
+                            so.violations.push("C09 decoder output is not immediately consumable (after a failed call)".to_string());
+                        }
+                        if produced.len() < run.base {
+                            so.violations.push("C07 a failed decode call removed output".to_string());
+                        }
+                        so.violations.extend(oracle_dec(run.l, &run.input, None, &run.snaps, &produced, run.errors));
+                        // the object stays usable: what follows is a new message for a decoder in
+                        // its initial state, appended to the output so far
+                        run.snaps.push((run.drained.len(), s.rstable, s.stable_hash));
+                        run.input.clear();
+                        run.base = produced.len();
+                        run.errors += 1;
                         so
                     }
                 }
@@ -514,7 +567,7 @@ impl Exec for DecExec {
                 let Ok(n) = n.parse::<usize>() else { return StepOut::bad() };
                 // only on a fresh decoder
                 match self.run.as_ref() {
-                    Some(r) if r.input.is_empty() && r.snaps.is_empty() => {}
+                    Some(r) if !r.fed && r.snaps.is_empty() => {}
                     _ => return StepOut::bad(),
                 }
                 let run = self.run.take().unwrap();
@@ -524,7 +577,7 @@ impl Exec for DecExec {
             }
             ["finish"] => {
                 let Some(run) = self.run.take() else { return StepOut::bad() };
-                let DecRun { mut dec, l, input, drained, snaps } = run;
+                let DecRun { mut dec, l, input, drained, snaps, base, errors, fed: _ } = run;
                 let size = dec.consumer().total_size();
                 let rest = stable_bytes(&dec.consumer());
                 let mut produced = drained;
@@ -559,7 +612,11 @@ impl Exec for DecExec {
                         false
                     }
                 };
-                so.violations.extend(oracle_dec(l, &input, if verdict { Some(&produced) } else { None }, &snaps, &produced));
+                if errors > 0 {
+                    so.tags.push(if verdict { "dec_accepted_after_error".into() } else { "dec_rejected_after_error".into() });
+                }
+                let base = base.min(produced.len());
+                so.violations.extend(oracle_dec(l, &input, if verdict { Some(&produced[base..]) } else { None }, &snaps, &produced, errors));
                 so.tags.push(format!("dec_len_{}", len_class(input.len())));
                 so
             }
